@@ -297,7 +297,11 @@ impl LevelManifest {
 			.max()
 			.unwrap_or(0);
 
-		if computed_max_seq != last_sequence {
+		// The stored value is a high-water mark: compaction may legitimately
+		// drop the entries that carried the highest sequence numbers (e.g. a
+		// put and its tombstone merged into the last level), so the tables may
+		// hold less than `last_sequence` - never more.
+		if computed_max_seq > last_sequence {
 			return Err(Error::LoadManifestFail(format!(
 				"Manifest last_sequence mismatch: stored={}, computed from tables={}",
 				last_sequence, computed_max_seq
